@@ -46,7 +46,10 @@ var Shard, Shards = 0, 1
 var generators = map[string]func(rec *lib.Rec, r *lib.Rng, thorough bool){
 	"C13": genC13,
 	"C01": genC01,
-	"GEN": func(rec *lib.Rec, r *lib.Rng, thorough bool) { genTranslatorStream(rec, r, map[bool]int{false: 2000, true: 100000}[thorough], nil) },
+	"C02": genC02,
+	"GEN": func(rec *lib.Rec, r *lib.Rng, thorough bool) {
+		genTranslatorStream(rec, r, map[bool]int{false: 2000, true: 100000}[thorough], nil)
+	},
 }
 
 // runCorpus replays the minimised past failures and hand-picked boundary
